@@ -19,6 +19,7 @@ From RtoscV Require Import Save.TopoModel Save.SaveModel Save.SaveProofs Save.Ro
 Import ListNotations.
 Local Open Scope Z_scope.
 
+Module SM := SugarModel.
 Module SP := SugarProofs.
 
 (* ======================================================================== *)
